@@ -95,7 +95,9 @@ func c06OneShot(p *Program, r *Report) {
 	}
 }
 
-func (p *Program) ctxMethod(lc *lifecycle, name string) *ssa.Function { return p.methodNamed(lc.Ctx, name) }
+func (p *Program) ctxMethod(lc *lifecycle, name string) *ssa.Function {
+	return p.methodNamed(lc.Ctx, name)
+}
 
 func c06Forward(p *Program, r *Report) {
 	lc := lcOrFail(p, r)
